@@ -13,6 +13,8 @@ Delivery-target part (remote, target.lmtp over smtpconn):
     target.lmtp against scripted next hops with a recording StatusCollector;
     the traces are validated against RcptStatusTrace.tla.
 Pipeline part (msgpipeline statusCollector): PipeStatus.tla, see run_pipeline.
+Inbound part (LMTP endpoint: the client's spelling of every recipient, per-recipient
+replies on the socket): RcptStatusEndp.tla, see run_endpoint.
 """
 import concurrent.futures
 import json
@@ -55,6 +57,27 @@ CONSTANTS
   Gen = %(gen)s
 %(tail)s
 """
+
+
+ECFG = """SPECIFICATION %(spec)s
+CONSTANTS
+  BoxSet = {%(boxes)s}
+  SpellSet = {%(spells)s}
+  RcptRes = {%(rres)s}
+  StSet = {%(st)s}
+  BdatSet = {%(bdat)s}
+  MaxRcpts = %(maxrcpts)d
+  MaxTxns = %(maxtxns)d
+  Gen = %(gen)s
+%(tail)s
+"""
+ENDP_KEEP = {"Cfg", "Txn", "Rcpt", "Replies", "Rset", "Closed", "DataRefused", "End"}
+
+
+def ecfg(spec="Spec", boxes=("u", "v", "w"), spells=("n", "a", "b"), rres=("ok", "temp", "perm"),
+         st=("ok", "temp", "perm"), bdat=("TRUE", "FALSE"), maxrcpts=3, maxtxns=2, gen=False, tail=MC_TAIL):
+    return ECFG % dict(spec=spec, boxes=q(boxes), spells=q(spells), rres=q(rres), st=q(st), bdat=", ".join(bdat),
+                       maxrcpts=maxrcpts, maxtxns=maxtxns, gen="TRUE" if gen else "FALSE", tail=tail)
 
 
 def pcfg(spec="Spec", maxlist=2, st=("ok", "temp", "perm"), scopes=("global", "source", "dest"), devs=(), gen=False,
@@ -317,6 +340,99 @@ def run_pipeline(ctx, replay_obj, binary, known, thorough, skip_mc):
     return len(behs), nt, ok, drift, preds
 
 
+def run_endpoint(ctx, replay_obj, binary, thorough, skip_mc):
+    """Inbound half: RcptStatusEndp.tla, the real LMTP endpoint (go-smtp LMTP server, Session, msgpipeline)
+    in front of a scripted partial target; what is judged is what the client reads from the socket."""
+    if not replay_obj and not skip_mc:
+        r = ctx.tlc_expect_ok("RcptStatusEndp", None, name="endp-mc", workers=4, timeout=1800, heap="3g",
+                              cfg_text=ecfg(maxrcpts=4 if thorough else 3, maxtxns=2))
+        ctx.log("TLC exhaustive endp-mc: %d distinct states, %d transitions, depth %d, %.1fs" % (
+            r["distinct"], r["generated"], r["depth"], r["wall"]))
+        ctx.cov["states"] = ctx.cov.get("states", 0) + r["distinct"]
+        ctx.cov["transitions"] = ctx.cov.get("transitions", 0) + r["generated"]
+        ctx.cov["states_endpoint"] = r["distinct"]
+    if replay_obj:
+        behs = [replay_obj["behaviour"]]
+        behs[0]["id"] = 1
+    else:
+        # exhaustive: one mailbox named up to 3 times under every spelling, refused or accepted each time;
+        # two transactions in one session (the first may be aborted); two mailboxes (one in an IDN domain),
+        # both content paths (DATA / BDAT)
+        focus = [("endp-gen1", ecfg(boxes=("u",), rres=("ok", "temp"), st=("ok",), bdat=("FALSE",), maxrcpts=3,
+                                    maxtxns=1, gen=True, tail=GEN_TAIL), None),
+                 ("endp-gen2", ecfg(boxes=("u",), spells=("n", "a"), rres=("ok", "perm"), st=("ok",), bdat=("TRUE",),
+                                    maxrcpts=2, maxtxns=2, gen=True, tail=GEN_TAIL), None if thorough else 400),
+                 ("endp-gen3", ecfg(boxes=("u", "v"), spells=("n", "a"), rres=("ok", "temp"), st=("ok", "temp"),
+                                    maxrcpts=2, maxtxns=1, gen=True, tail=GEN_TAIL), None)]
+        jobs = [(name, dict(workers=2, timeout=1800, cfg_text=text, heap="3g")) for name, text, _ in focus]
+        jobs.append(("endp-sim", dict(workers=1, timeout=1800, simulate=3000 if thorough else 150, depth=40, heap="3g",
+                                      cfg_text=ecfg(maxrcpts=3, maxtxns=2, gen=True, tail=GEN_TAIL))))
+        with concurrent.futures.ThreadPoolExecutor(max_workers=len(jobs)) as ex:
+            futs = {name: ex.submit(ctx.tlc, "RcptStatusEndp", None, name=name, **kw) for name, kw in jobs}
+            res = {name: f.result() for name, f in futs.items()}
+        caps = {name: cap for name, _, cap in focus}
+        behs, seen = [], set()
+        for name, _ in jobs:
+            g = res[name]
+            if not g["ok"]:
+                raise vlib.Infra("behaviour generation %s failed: %s %s" % (name, g["invariant"], g["error"]))
+            got = [{"cfg": v["cfg"], "steps": v["steps"]} for tag, v in g["printed"] if tag == "BEH"]
+            if name != "endp-sim":
+                ctx.cov["exhaustive_" + name] = len(got)
+            if caps.get(name) and len(got) > caps[name]:
+                got = vlib.sample(ctx.rng, got, caps[name])
+            for b in got:
+                key = json.dumps(b, sort_keys=True)
+                if key not in seen:
+                    seen.add(key)
+                    behs.append(b)
+        for i, b in enumerate(behs):
+            b["id"] = i + 1
+        if not behs:
+            raise vlib.Infra("TLC produced no endpoint behaviours")
+    ctx.log("%d LMTP endpoint behaviours to replay" % len(behs))
+    events = ctx.run_shards(binary, behs, test="TestReplayLmtpEndp", shards=min(vlib.NCPU, 4), name="replay-endp")
+    by_id = {b["id"]: b for b in behs}
+
+    # binding self-test: a reply moved to another spelling / a reply dropped in a copy of an accepted trace
+    selftest = {}
+    if not replay_obj:
+        base = None
+        for b in behs:
+            evs = [e for e in events if e["t"] == b["id"] and e["e"] in ENDP_KEEP]
+            reps = [e for e in evs if e["e"] == "Replies"]
+            if reps and len(reps[0]["reps"]) >= 2 and not any(e["e"] == "Closed" for e in evs):
+                base = evs
+                break
+        if base:
+            c1 = [json.loads(json.dumps(dict(e, t=900001))) for e in base]
+            for e in c1:
+                if e["e"] == "Replies":
+                    e["reps"][0]["s"] = "b" if e["reps"][0]["s"] != "b" else "a"
+                    break
+            c2 = [json.loads(json.dumps(dict(e, t=900002))) for e in base]
+            for e in c2:
+                if e["e"] == "Replies":
+                    del e["reps"][0]
+                    break
+            events = events + c1 + c2
+            selftest = {900001: "reply-under-other-spelling", 900002: "dropped-reply"}
+    verdicts, by_t = ctx.validate("RcptStatusEndpTrace", None, events, keep=ENDP_KEEP, name="RcptStatusEndpTrace",
+                                  cfg_text=ecfg(spec="TSpec", maxrcpts=4, maxtxns=2, tail=TRACE_TAIL))
+    for t in selftest:
+        if not any(r["viol"] for r in verdicts.get(t, [])):
+            raise vlib.Infra("binding self-test failed: %s trace raised no violation" % selftest[t])
+    ok, drift, preds = classify(ctx, "C09", verdicts, by_t, by_id, [], [], selftest,
+                                "LMTP endpoint per-recipient replies violate %s (transaction(s) %s of the session)")
+    if selftest:
+        ctx.cov["binding_selftest_endpoint"] = "reply under another spelling and dropped reply rejected"
+    ctx.cov["reply_events_checked"] = sum(1 for e in events if e["e"] == "Replies" and e["t"] < 900000)
+    for b in behs[:1]:
+        ctx.cov["samples"].append({"behaviour": b, "trace": [e for e in by_t.get(b["id"], [])][:30]})
+    nt = sum(1 for b in behs if any(s["a"] == "Rcpt" and (s["res"] != "ok" or s["s"] != "n") for s in b["steps"]))
+    return len(behs), nt, ok, drift, preds
+
+
 def run(ctx, replay):
     thorough = ctx.tier == "thorough"
     known = open_findings()
@@ -343,6 +459,11 @@ def run(ctx, replay):
         n, nt, ok, drift = n + n2, nt + nt2, ok + ok2, drift + drift2
         for k2, v2 in preds2.items():
             preds[k2] = preds.get(k2, 0) + v2
+    if not robj or "steps" in robj["behaviour"]:
+        n3, nt3, ok3, drift3, preds3 = run_endpoint(ctx, robj, binary, thorough, skip_mc)
+        n, nt, ok, drift = n + n3, nt + nt3, ok + ok3, drift + drift3
+        for k3, v3 in preds3.items():
+            preds[k3] = preds.get(k3, 0) + v3
     ok += hook_ok
     ctx.cov["traces_validated_against_impl"] = ok
     ctx.cov["drift_traces"] = drift
@@ -353,7 +474,10 @@ def run(ctx, replay):
                        "fault plan) of RcptStatus.tla printed by TLC: exhaustive over small sub-spaces, -simulate over the "
                        "full space, de-duplicated; non-trivial = a scripted failure, a duplicate or a non-plain address; "
                        "pipeline: every pair of rewrite rules x recipient list of PipeStatus.tla (target results sampled "
-                       "in quick, complete in thorough), non-trivial = a non-identity rule")
+                       "in quick, complete in thorough), non-trivial = a non-identity rule; LMTP endpoint: sessions of "
+                       "RcptStatusEndp.tla (mailbox x spelling x refused/accepted per RCPT, DATA or RSET, 1-2 "
+                       "transactions, DATA/BDAT): exhaustive small sub-spaces + -simulate, non-trivial = a refused "
+                       "RCPT or a non-normalised spelling")
     ctx.cov["exhaustive"] = False
     ctx.assumptions += [
         "next hops are scripted raw SMTP/LMTP servers on loopback TCP following a fault plan per transaction",
@@ -361,6 +485,9 @@ def run(ctx, replay):
         "duplicates: an address accepted n times may be reported 1..n times (weaker reading)",
         "pipeline: real msgpipeline.New + replace_rcpt over a static table, one scripted partial target that accepts "
         "every recipient; a supplied address rewritten to n addresses may be reported 1..n times",
+        "LMTP endpoint: raw LMTP over an in-memory connection to the real endpoint (go-smtp server, Session, "
+        "msgpipeline, one scripted partial target, routing refuses one mailbox); the replies are read off the socket; "
+        "spellings are case variants of an ASCII domain and A-labels of an IDN domain; SMTPUTF8 is always asked for",
         "a harness-side time-out is exit 2, never a violation",
         "TLC 1.8.0, CommunityModules Json reader",
     ]
@@ -380,7 +507,10 @@ META = {
             "predicates are evaluated by TLC over traces recorded from the real targets. Pipeline: every pair of "
             "rewrite rules (identity, 1->1, 1->2 over four effective addresses, incl. a target also supplied directly) x "
             "recipient list x target results of PipeStatus.tla, replayed on the real msgpipeline with the real "
-            "replace_rcpt modifier and a scripted partial target.",
+            "replace_rcpt modifier and a scripted partial target. Inbound: sessions of RcptStatusEndp.tla (every RCPT a "
+            "mailbox x spelling x accepted/refused, the same mailbox refused and accepted again under another "
+            "spelling, 1-2 transactions, RSET, DATA/BDAT) replayed on the real LMTP endpoint; one reply per accepted "
+            "RCPT, under the address as given, in order, carrying the target's result.",
     "note": "Scripted next hops on loopback TCP; the StatusCollector is a recording stub; trusted: TLC, the harness, "
             "Go toolchain.",
     "design_ref": "DESIGN.md section 5 C09",
